@@ -25,6 +25,15 @@ HeldD(h) == \E a \in accD : a.h = h
 \* known finding C07-alias: another block with the identical tx list has its data on the DA layer
 AliasHeld(h) == \E x \in ih .. height : x # h /\ B(x).txs = B(h).txs /\ HeldD(x)
 
+\* what the DA layer has acknowledged to this process (acknowledgements received before an unclean stop are
+\* forgotten with it, except for what the durable watermark already covers)
+KnownH(h) == h <= durH \/ (h \in ackH /\ h \notin lostH)
+KnownD(h) == h <= durD \/ (h \in ackD /\ h \notin lostD)
+\* committed blocks genuinely still waiting for the DA layer when a production step begins: the header is not
+\* acknowledged; or the block has transactions and its data is not acknowledged; or it is empty and the data
+\* loop has not yet passed it (memD = the node's own data watermark, i.e. chain height - pending data count)
+GenuinelyWaiting(memD) == {h \in ih .. height : ~KnownH(h) \/ (IF Empty(h) THEN h > memD ELSE ~KnownD(h))}
+
 Seq2Set(s) == {s[i] : i \in 1 .. Len(s)}
 Kinds(bs) == {bs[i].kind : i \in 1 .. Len(bs)}
 Increasing(bs, strict1) == \A i \in 1 .. (Len(bs) - 1) : IF strict1 THEN bs[i + 1].h = bs[i].h + 1 ELSE bs[i + 1].h > bs[i].h
@@ -82,7 +91,7 @@ ObsChecks(o) == <<
 Init ==
     /\ l = 1 /\ run = "" /\ ih = 1 /\ limit = 0 /\ blocks = <<>> /\ height = 0 /\ accH = {} /\ accD = {} /\ ackH = {} /\ ackD = {}
     /\ durH = 0 /\ durD = 0 /\ lastIncl = 0 /\ lastDurIncl = 0 /\ finals = {} /\ maxFinal = 0 /\ refinalOK = FALSE
-    /\ sb = [pendH |-> 0, pendD |-> 0, on |-> FALSE] /\ stepOk = FALSE /\ lostH = {} /\ lostD = {} /\ viol = <<>>
+    /\ sb = [pendH |-> 0, pendD |-> 0, on |-> FALSE, gw |-> 0] /\ stepOk = FALSE /\ lostH = {} /\ lostD = {} /\ viol = <<>>
 
 e == Trace[l]
 Is(name) == l <= N /\ e.ev = name
@@ -94,7 +103,7 @@ TReset ==
     /\ run' = e.run /\ ih' = e.ih /\ limit' = (IF "limit" \in DOMAIN e THEN e.limit ELSE 0)
     /\ blocks' = <<>> /\ height' = 0 /\ accH' = {} /\ accD' = {} /\ ackH' = {} /\ ackD' = {}
     /\ durH' = 0 /\ durD' = 0 /\ lastIncl' = 0 /\ lastDurIncl' = 0 /\ finals' = {} /\ maxFinal' = e.ih - 1 /\ refinalOK' = FALSE
-    /\ sb' = [pendH |-> 0, pendD |-> 0, on |-> FALSE] /\ stepOk' = FALSE /\ lostH' = {} /\ lostD' = {}
+    /\ sb' = [pendH |-> 0, pendD |-> 0, on |-> FALSE, gw |-> 0] /\ stepOk' = FALSE /\ lostH' = {} /\ lostD' = {}
     /\ UNCHANGED viol
 
 TObs ==
@@ -150,7 +159,7 @@ TKV ==
 
 TStepBegin ==
     /\ Is("StepBegin") /\ Adv
-    /\ sb' = [pendH |-> e.pendH, pendD |-> e.pendD, on |-> TRUE] /\ stepOk' = FALSE
+    /\ sb' = [pendH |-> e.pendH, pendD |-> e.pendD, on |-> TRUE, gw |-> Cardinality(GenuinelyWaiting(e.height - e.pendD))] /\ stepOk' = FALSE
     /\ UNCHANGED <<run, ih, limit, blocks, height, accH, accD, ackH, ackD, durH, durD, lastIncl, lastDurIncl, finals, maxFinal, refinalOK, lostH, lostD, viol>>
 
 TStepRet ==
@@ -166,7 +175,9 @@ TStepEnd ==
     /\ Is("StepEnd") /\ Adv
     /\ viol' = viol \o Failed(<<
           <<"C08.Throttles", (sb.on /\ ExpectRefusal) => e.h1 = e.h0, "a block was produced although the pending limit was reached">>,
-          <<"C08.RefusesOnlyAtLimit", (sb.on /\ stepOk /\ ~ExpectRefusal) => e.h1 = e.h0 + 1, "production declined although the pending limit was not reached">>
+          <<"C08.RefusesOnlyAtLimit", (sb.on /\ stepOk /\ ~ExpectRefusal) => e.h1 = e.h0 + 1, "production declined although the pending limit was not reached">>,
+          <<"C08.RefusesOnlyWhileGenuinelyPending", (sb.on /\ stepOk /\ limit > 0 /\ e.h1 = e.h0) => sb.gw >= limit,
+              "production declined although fewer committed blocks than the limit are still waiting to be acknowledged by the DA layer">>
           >>, l, run)
     /\ sb' = [sb EXCEPT !.on = FALSE]
     /\ UNCHANGED <<run, ih, limit, blocks, height, accH, accD, ackH, ackD, durH, durD, lastIncl, lastDurIncl, finals, maxFinal, refinalOK, stepOk, lostH, lostD>>
